@@ -31,8 +31,10 @@ GRIDS = {
     'dunit': dict(T=4, freq='h', tz=None, unit='d'),
     'day2': dict(T=4, freq='h', tz=None, shift_days=1),      # same instants, main time unit 'd' (rates per day, durations in days)
 }
-OPS = ['h', 'cet', 'utc', 'q15', 'short', 'dunit', 'same', 'split', 'costs', 'frame']
+OPS = ['h', 'cet', 'utc', 'q15', 'short', 'dunit', 'same', 'split', 'costs', 'frame', 'wrapped']
 FINALS = ['h', 'cet', 'q15', 'short', 'utc', 'dunit', 'frame_day2']
+# the documented call form "time grid set before, not given to the set-up call": portfolio (also with a fixed time window) and every asset on its own
+NOGRID_FINALS = ['h_nogrid', 'h_nogrid_assets']
 PORTFOLIOS = ['dicts', 'wrappers', 'orderbook', 'classes', 'linked']
 NAIVE_ONLY = {'orderbook', 'classes', 'linked'}      # order dates are naive: EAO compares them with the grid points as they are
 
@@ -52,6 +54,8 @@ def cases(tier, seed):
                 groups.setdefault(h[0] if h else '-', []).append(list(h))
             for g, lst in sorted(groups.items()):
                 out.append(('%s_final_%s_first_%s' % (pfk, fin, g), dict(pf=pfk, final=fin, histories=lst)))
+        for fin in NOGRID_FINALS:
+            out.append(('%s_final_%s' % (pfk, fin), dict(pf=pfk, final=fin, histories=[[], ['q15']] + ([['wrapped']] if tier == 'thorough' else []))))
     return out
 
 
@@ -168,6 +172,17 @@ def apply_op(pf, op, D, grids):
         g = mk_grid('h')
         pr = mk_prices(D, 'h')
         return pf.setup_split_optim_problem(pd.DataFrame(pr), g, interval_size='2h')
+    if op == 'wrapped':
+        # the very asset objects of the portfolio are wrapped in a structured asset with a narrower window, which is set up once
+        eao = lift.import_eao()
+        g = mk_grid('h')
+        h_ = lambda k: shapes.T0 + dt.timedelta(hours=k)
+        names = []
+        for a in pf.assets:
+            names += [n for n in a.node_names if n not in names]
+        w = eao.portfolio.StructuredAsset(name='tmp_wrapper', nodes=[eao.assets.Node(n) for n in names], portfolio=eao.portfolio.Portfolio(list(pf.assets)),
+                                          start=h_(1), end=h_(2))
+        return w.setup_optim_problem(mk_prices(D, 'h'), g)
     if op == 'costs':
         g = grids.get('h') or mk_grid('h')
         grids['h'] = g
@@ -182,6 +197,8 @@ def scenario(D, pfk, history, final):
     for op in history:
         apply_op(pf, op, D, grids)
     # final call: on the grid object an earlier call may have used, with every cache poisoned
+    if final in NOGRID_FINALS:
+        return scenario_nogrid(D, pfk, pf, grids, final)
     fkey = 'day2' if final == 'frame_day2' else final
     g = grids.get(fkey) or mk_grid(fkey)
     if final == 'frame_day2':
@@ -212,6 +229,62 @@ def scenario(D, pfk, history, final):
         raise
     if isinstance(op_fresh, Exception):
         raise AssertionError('fresh object raises %s: %s but the call succeeds after the history' % (type(op_fresh).__name__, op_fresh))
+    return op_hist, op_fresh
+
+
+class Stacked:
+    """the stand-alone problems of several assets side by side (block diagonal), as one problem-like object for compare()"""
+
+    def __init__(self, ops):
+        self.c = np.concatenate([np.asarray(o.c, dtype=object) for o in ops]) if ops else np.zeros(0, dtype=object)
+        self.l = np.concatenate([np.asarray(o.l, dtype=object) for o in ops]) if ops else np.zeros(0, dtype=object)
+        self.u = np.concatenate([np.asarray(o.u, dtype=object) for o in ops]) if ops else np.zeros(0, dtype=object)
+        n = len(self.c)
+        blocks, bs, ct, maps, off = [], [], '', [], 0
+        for o in ops:
+            k = len(o.c)
+            A = to_dense(o.A)
+            if A is not None and A.size:
+                blk = np.zeros((A.shape[0], n), dtype=object)
+                blk[:, off:off + A.shape[1]] = A
+                blocks.append(blk)
+                bs.append(np.asarray(o.b, dtype=object))
+                ct += o.cType
+            if o.mapping is not None and len(o.mapping):
+                m = o.mapping.copy()
+                m.index = [int(i) + off for i in m.index]
+                maps.append(m)
+            off += k
+        self.A = np.vstack(blocks) if blocks else None
+        self.b = np.concatenate(bs) if bs else None
+        self.cType = ct or None
+        self.mapping = pd.concat(maps) if maps else None
+        self.map_nodal_restr = None
+
+
+def scenario_nogrid(D, pfk, pf, grids, final):
+    """final call without the time grid argument (the grid was set before): same problem as a fresh object given the grid"""
+    g = grids.get('h') or mk_grid('h')
+    if hasattr(g, 'restricted'):
+        g.restricted = Poison()
+    if hasattr(g, 'discount_factors'):
+        g.discount_factors = Poison()
+    fresh = mk_portfolio(D, pfk)
+    gf = mk_grid('h')
+    pr = mk_prices(D, 'h')
+    if final == 'h_nogrid_assets':
+        a_fresh = [a.setup_optim_problem(pr, gf) for a in fresh.assets]
+        a_hist = []
+        for a in pf.assets:
+            a.set_timegrid(g)
+            a_hist.append(a.setup_optim_problem(pr))
+        return Stacked(a_hist), Stacked(a_fresh)
+    # portfolio, with the first two steps fixed to given values
+    n = len(fresh.setup_optim_problem(pr, gf).c)
+    fix = dict(I=shapes.T0 + dt.timedelta(hours=1), x=D.arr('fixx', n))
+    op_fresh = fresh.setup_optim_problem(pr, mk_grid('h'), fix_time_window=dict(fix))
+    pf.set_timegrid(g)
+    op_hist = pf.setup_optim_problem(pr, fix_time_window=dict(fix))
     return op_hist, op_fresh
 
 
